@@ -262,7 +262,39 @@ def _mk1(cells, tag, default, shape=None, active=None):
 
 def case_d1(case):
     zc, ac, body, owned, default = case
-    return check_populate(zc, ac, 1, body, owned, default)
+    out = check_populate(zc, ac, 1, body, owned, default)
+    if all(x == "l" for x in body):
+        out += two_passes(zc, ac, owned, default)
+    return out
+
+
+def two_passes(zc, ac, owned, default):
+    """One populate object traversed twice by a body that writes nothing (an inspection pass before the real one):
+    both passes offer a's coordinates and leave z as it was."""
+    out = []
+    feats = {"depth:1", "owned" if owned else "unowned", "same_populate_object_iterated_twice"}
+    try:
+        z = _mk1(zc, 1, default)
+        keep = Tensor.fromFiber(["M"], z, shape=[len(zc)], default=default) if owned else None
+        z = keep.getRoot() if owned else z
+        a = _mk1(ac, 2, 0)
+        exp = [o[0] for o in _offered(a, 1, None)]
+        # reference: one pass on fresh objects (it drops explicit defaults of z at offered coordinates: C05's rule)
+        z1 = _mk1(zc, 1, default)
+        keep1 = Tensor.fromFiber(["M"], z1, shape=[len(zc)], default=default) if owned else None
+        z1 = keep1.getRoot() if owned else z1
+        for _ in z1 << _mk1(ac, 2, 0):
+            pass
+        p = z << a
+        got = [[c for c, _ in p], [c for c, _ in p]]
+        if got[0] == exp and got[1] != exp:
+            out.append(("populate", "second-pass-offers-other-coordinates", feats, exp, got[1]))
+        if rawtree(z) != rawtree(z1):
+            out.append(("populate", "two-passes-leave-another-tree-than-one", feats, rawtree(z1), rawtree(z)))
+    except Exception as ex:
+        out.append(("populate", "exception:" + type(ex).__name__, feats | {"site:" + core.exc_site(ex)}, None,
+                    core.tb_tail(ex)))
+    return out
 
 
 def case_d1u(case):
@@ -441,7 +473,59 @@ def shard_d2own(acc, shard, nshards, params):
                family="depth2-source-owned-default7[T2(2,2)]")
 
 
-CASES = {"d2own": case_d2own, "d1": case_d1, "d1u": case_d1u, "deep": case_deep, "d2u": case_d2u}
+def case_d2ul(case):
+    """Depth-2 accumulate kernel whose source's LOWER rank is declared uncompressed and whose shape is only
+    estimated (tensor built without shape=): every row offers the coordinates 0..E-1, E = the rank's estimate =
+    the largest stored coordinate of any row + 1; z gains the source's content."""
+    zspec, aspec = case
+    out = []
+    feats = {"depth:2", "source_lower_rank_uncompressed", "source_shape_estimated"} | \
+            {"a:" + f for f in tree_features(aspec, 2)}
+    try:
+        Z = Tensor.fromFiber(["M", "N"], mktree(zspec, 2, tag=1), shape=[2, 2])
+        A = Tensor.fromFiber(["M", "N"], mktree(aspec, 2, tag=2))
+        A.setFormat("N", "U")
+        before = (rawtensor(A), rank_index_view(A))
+        zc, ac = content(Z), content(A)
+        stored = [n for row in aspec if row is not None for n, x in enumerate(row) if x != '-']
+        E = max(stored) + 1 if stored else 0
+        rows = [m for m, row in enumerate(aspec) if row is not None and any(x not in '-0' for x in row)]
+        got_rows, bad = [], None
+        for m, (z_n, a_n) in Z.getRoot() << A.getRoot():
+            got_rows.append(m)
+            offered = []
+            for n, (zr, av) in z_n << a_n:
+                offered.append(n)
+                zr += av
+            if offered != list(range(E)) and bad is None:
+                bad = (m, offered)
+        if got_rows != rows:
+            out.append(("populate", "yield-sequence", feats, rows, got_rows))
+        if bad:
+            out.append(("populate", "row-yield-sequence", feats, list(range(E)), list(bad)))
+        exp = dict(zc)
+        for p, v in ac.items():
+            exp[p] = exp.get(p, 0) + v
+        if content(Z) != exp:
+            out.append(("populate", "content", feats, exp, content(Z)))
+        if (rawtensor(A), rank_index_view(A)) != before:
+            out.append(("populate", "source-modified", feats, None, None))
+        if ac:
+            core.CUR.nt("populate")
+    except Exception as ex:
+        out.append(("populate", "exception:" + type(ex).__name__, feats | {"site:" + core.exc_site(ex)},
+                    None, core.tb_tail(ex)))
+    return out
+
+
+def shard_d2ul(acc, shard, nshards, params):
+    u = t2(2, 2)
+    zs = [u[0], u[len(u) // 2], u[-1]]
+    core.drive(acc, "d2ul", case_d2ul, ((z, a) for a in u for z in zs), shard, nshards,
+               family="depth2-U-lower-source-estimated-shape[T2(2,2) x 3 destinations]")
+
+
+CASES = {"d2ul": case_d2ul, "d2own": case_d2own, "d1": case_d1, "d1u": case_d1u, "deep": case_deep, "d2u": case_d2u}
 
 
 def run(ctx):
@@ -449,6 +533,8 @@ def run(ctx):
     q = ctx.quick
     ctx.bounds = {
         "depth1": "z, a in F1(N,{-,0,v}) x all bodies over {l,s,z,p}: N=%d unowned; N=3 owned by a tensor; N=3 leaf default 7; float leaf default 0.5 (N=3 owned, N=2 unowned)" % (4 if q else 5),
+        "depth2-U-lower-estimated": "source tensor built without shape=, lower rank uncompressed: every row offers 0..E-1 (E = the "
+                                    "rank's estimated shape), accumulate kernel, T2(2,2) sources x 3 destinations",
         "depth2-owner-default": "source = tensor with leaf default 7 over fibers built with default 0 (stored zeros are values), T2(2,2), "
                                 "assign kernel into an empty tensor with default 7 / 0: offered rows and leaves, content, source untouched",
         "depth1-U-source": "source rank uncompressed with every active range, N=3, bodies over {l,p,z}",
@@ -462,6 +548,7 @@ def run(ctx):
     ctx.shards(shard_d1, (3, True, 0.5, "lzp"))
     ctx.shards(shard_d1, (2, False, 0.5, "lzp"))
     ctx.shards(shard_d2own, None)
+    ctx.shards(shard_d2ul, None)
     ctx.shards(shard_d1u, (3, "lpz"))
     ctx.shards(shard_d2u, None)
     ctx.bounds["depth2-U-upper-source"] = "z, a in T2(2,2), a's upper rank declared uncompressed, accumulate body; source tensor snapshot incl. rank lists"
